@@ -57,6 +57,7 @@ type c01Req struct {
 	rounded  uint32
 	nowSent  uint32 // virtual time when sent
 	historic bool
+	agent    int
 	reject   string // model: reason that permits an answer without insert at send time ("" = none)
 	lateKeep bool   // model: late recent request, must be answered keep
 	afterShutdown bool
@@ -161,7 +162,7 @@ func c01Prop(t vpT, c c01Case) (nontrivial bool, classes []string) {
 			for rounded%3 != uint32(c.Replica-1) {
 				rounded++
 			}
-			r := &c01Req{ord: len(reqs), step: si, at: at, rounded: rounded, nowSent: now, historic: st.Historic, afterShutdown: shutdown}
+			r := &c01Req{ord: len(reqs), step: si, agent: st.Agent, at: at, rounded: rounded, nowSent: now, historic: st.Historic, afterShutdown: shutdown}
 			// reference: may this request be acknowledged without an insert?
 			switch {
 			case st.Corrupt != 0:
@@ -192,10 +193,43 @@ func c01Prop(t vpT, c c01Case) (nontrivial bool, classes []string) {
 			reqs = append(reqs, r)
 			if r.call.Registered && !r.call.BucketRecent {
 				cls["A:queued-historic"] = true
+				for _, e := range reqs[:len(reqs)-1] {
+					if e.at == r.at && e.rounded != e.at && e.agent != st.Agent && e.call.Registered && !e.call.BucketRecent && !e.call.IsDone() {
+						cls["A:same-second-failover-historic"] = true // several agents queue the same second on a replica that is not its primary
+					}
+				}
 			}
 			markSeen()
 		default:
 			t.Fatalf("bad step kind %q", st.Kind)
+		}
+	}
+	// quiescence (virtual time): unless the aggregator was shut down, move the recent window past everything that was
+	// sent and keep ticking with healthy inserts until the historic queue is empty
+	quiesced := false
+	if !shutdown {
+		now += uint32(c.ShortWindow + data_model.FutureWindow + 3)
+		for i := 0; i < 100; i++ {
+			for _, ev := range m.Tick(now, nil, nil, 0) {
+				if ev.Stray != 0 {
+					t.Fatalf("drain: bucket %d not owned by replica %d has %d contributors", ev.Time, c.Replica, ev.Stray)
+				}
+				if ev.Pushed && len(ev.Popped) != 0 {
+					cls["A:historic-inserted"] = true
+				}
+			}
+			markSeen()
+			m.a.mu.Lock()
+			left := len(m.a.historicBuckets)
+			m.a.mu.Unlock()
+			if left == 0 {
+				quiesced = true
+				break
+			}
+			now += 3
+		}
+		if !quiesced {
+			t.Fatalf("historic queue did not drain in 100 healthy inserts")
 		}
 	}
 	// let late answers (there must be none) surface, then evaluate the recorded history
@@ -229,6 +263,9 @@ func c01Prop(t vpT, c c01Case) (nontrivial bool, classes []string) {
 		call := r.call
 		where := fmt.Sprintf("request %d (step %d, args.Time %d = now%+d, rounded %d, historic %v, bucket %d recent %v)", r.ord, r.step, r.at, int64(r.at)-int64(r.nowSent), r.rounded, r.historic, call.BucketTime, call.BucketRecent)
 		if !r.seen {
+			if quiesced && call.Longpoll {
+				t.Fatalf("%s: the aggregator dropped a request it had accepted: never answered and its rows are in no INSERT (%d successful inserts contain them), although the recent window moved past it and the historic queue drained with healthy inserts", where, len(inserted[r.ord]))
+			}
 			cls["A:unanswered"] = true
 			continue
 		}
@@ -336,9 +373,24 @@ func c01Gen() *rapid.Generator[c01Case] {
 			sent++
 			return st
 		}
+		now := c.Now
 		for r := 0; r < rounds; r++ {
 			if r == shutdownAt {
 				c.Steps = append(c.Steps, c01Step{Kind: "shutdown"})
+			}
+			if rapid.IntRange(0, 3).Draw(t, "burst") == 0 {
+				// failover: 2-3 different agents offer the same second, which this replica does not own, through the
+				// historic conveyor, back to back
+				oldest := now - uint32(c.ShortWindow)
+				at := oldest - 3 - uint32(rapid.IntRange(0, c.HistoricWindow-6).Draw(t, "burstage"))
+				if at%3 == uint32(c.Replica-1) {
+					at--
+				}
+				first := rapid.IntRange(1, 3).Draw(t, "burstfirst")
+				for i, n := 0, rapid.IntRange(2, 3).Draw(t, "burstn"); i < n; i++ {
+					c.Steps = append(c.Steps, c01Step{Kind: "send", Agent: 1 + (first+i)%3, Dt: int(int64(at) - int64(now)), Historic: true, Spare: rapid.IntRange(0, 3).Draw(t, "burstspare") != 0})
+					sent++
+				}
 			}
 			for i, n := 0, rapid.IntRange(1, 4).Draw(t, "nsend"); i < n; i++ {
 				c.Steps = append(c.Steps, genSend())
@@ -352,6 +404,7 @@ func c01Gen() *rapid.Generator[c01Case] {
 				st.FullMask = rapid.IntRange(1, 3).Draw(t, "fullmask")
 			}
 			st.Hold = rapid.IntRange(0, 3).Draw(t, "hold") == 0
+			now += uint32(st.Advance)
 			c.Steps = append(c.Steps, st)
 		}
 		// most histories end with the window moving past everything that was sent, then the historic queue drains
